@@ -3,11 +3,13 @@ package c08
 import (
 	"bytes"
 	"fmt"
+	"math/rand"
 	"runtime"
 	"sort"
 	"strings"
 	"sync"
 	"testing"
+	"time"
 
 	"go.nanomsg.org/mangos/v3"
 
@@ -46,10 +48,11 @@ type c08Spec struct {
 	Sock   string `json:"sock,omitempty"`  // vt kind: bus xbus star xstar
 	Steps  int    `json:"steps,omitempty"` // vt kind: number of inject/send/sentinel steps
 	TTL    string `json:"ttl,omitempty"`   // star topologies: "tight" = every member's TTL is set to the longest path of the topology
+	Refuse int    `json:"refuse,omitempty"` // topology cases: on this many links a pipe event hook closes the first connection(s) while they are attaching
 }
 
 func (sp c08Spec) String() string {
-	return fmt.Sprintf("%s/%s%v raw=%b dev=%s tr=%s r=%d w=%d p=%d %s/%d", sp.Fam, sp.Kind, sp.Shape, sp.Raw, sp.Dev, sp.Tr, sp.Rounds, sp.W, sp.Procs, sp.Sock, sp.Steps)
+	return fmt.Sprintf("%s/%s%v raw=%b dev=%s tr=%s r=%d w=%d p=%d %s/%d rf=%d", sp.Fam, sp.Kind, sp.Shape, sp.Raw, sp.Dev, sp.Tr, sp.Rounds, sp.W, sp.Procs, sp.Sock, sp.Steps, sp.Refuse)
 }
 
 func TestMain(m *testing.M) { hx.Main(m) }
@@ -76,7 +79,7 @@ func TestC08(t *testing.T) {
 	}
 	rounds := func() int { return r.Pick(5, 20) }
 	ntopo, nvt := r.Pick(3000, 60000), r.Pick(2000, 40000)
-	for i := 0; i < ntopo; i++ {
+	genTopo := func(i int) c08Spec {
 		sp := c08Spec{Tr: pickTr(), Rounds: rounds(), W: 16, Procs: procs[rnd.Intn(len(procs))], Raw: rnd.Uint32()}
 		switch x := rnd.Intn(100); {
 		case x < 20:
@@ -111,6 +114,10 @@ func TestC08(t *testing.T) {
 		if sp.Fam == "star" && i%3 == 0 {
 			sp.TTL = "tight"
 		}
+		return sp
+	}
+	for i := 0; i < ntopo; i++ {
+		sp := genTopo(i)
 		cases = append(cases, mon.CaseSpec{Name: sp.Fam + "-" + sp.Kind, Spec: sp})
 	}
 	for i := 0; i < nvt; i++ {
@@ -133,6 +140,14 @@ func TestC08(t *testing.T) {
 	for i := 0; i < r.Pick(36, 900); i++ {
 		sp := c08Spec{Kind: "resize", Fam: "star", Sock: []string{"star", "xstar"}[i%2], Shape: []int{rnd.Intn(3), (i / 2) % 3}}
 		cases = append(cases, mon.CaseSpec{Name: "resize-" + sp.Sock, Spec: sp})
+	}
+	// the same topologies, but members join the way an application with an admission check sees it: on
+	// one or two links a pipe event hook closes the first connection(s) while they are attaching (on the
+	// dialing or on the listening side) and admits a later one
+	for i := 0; i < r.Pick(200, 5000); i++ {
+		sp := genTopo(i)
+		sp.Refuse = 1 + rnd.Intn(2)
+		cases = append(cases, mon.CaseSpec{Name: sp.Fam + "-" + sp.Kind + "-refuse", Spec: sp})
 	}
 	r.Run(cases, func(c *mon.Case) {
 		sp := c.Spec.(c08Spec)
@@ -373,6 +388,9 @@ func c08Topo(c *mon.Case, sp c08Spec) {
 	if sp.Dev != "" {
 		pre += "-" + sp.Dev
 	}
+	if sp.Refuse > 0 {
+		pre += "/after-refusal"
+	}
 
 	// lossless bound: per round no (node, link) send queue ever has to hold more than 100 < 128 messages
 	maxT := 1
@@ -430,6 +448,7 @@ func c08Topo(c *mon.Case, sp c08Spec) {
 	})
 
 	// sockets
+	ref := &c08Refuser{left: map[interface{}]int{}}
 	memNode := make([]*c08Node, nm)
 	for _, n := range g.nodes {
 		proto := fam
@@ -452,13 +471,31 @@ func c08Topo(c *mon.Case, sp c08Spec) {
 				c.Count("star_members_with_ttl_equal_to_longest_path", 1)
 			}
 			n.socks = append(n.socks, s)
-			n.watch = append(n.watch, hx.WatchPipes(s))
+			if sp.Refuse > 0 {
+				w := &hx.PipeWatch{}
+				s.SetPipeEventHook(ref.hook(w))
+				n.watch = append(n.watch, w)
+			} else {
+				n.watch = append(n.watch, hx.WatchPipes(s))
+			}
 		}
 		if n.role == "member" {
 			memNode[n.member] = n
 		}
 	}
 	// links
+	plans := make([]c08RefusePlan, len(g.links))
+	var reconn time.Duration
+	if sp.Refuse > 0 {
+		reconn = []time.Duration{time.Millisecond, 2 * time.Millisecond, 5 * time.Millisecond, 10 * time.Millisecond}[c.Rand.Intn(4)]
+		for k, li := range c.Rand.Perm(len(g.links)) { // the first Refuse links of a random order (all, if there are fewer)
+			if k >= sp.Refuse {
+				break
+			}
+			plans[li] = c08RefusePlan{side: []string{"dial", "dial", "listen"}[c.Rand.Intn(3)], n: 1 + c.Rand.Intn(2)}
+		}
+	}
+	stale := map[[2]int]int{} // (node, socket side) -> connections that attach there and are then closed by the other end's refusal
 	for i := range g.links {
 		l := &g.links[i]
 		l.tr = sp.Tr
@@ -469,6 +506,22 @@ func c08Topo(c *mon.Case, sp c08Spec) {
 		if c.Rand.Intn(2) == 0 { // either end may be the listener
 			a, as, b, bs = b, bs, a, as
 		}
+		if sp.Refuse > 0 {
+			// a listens, b dials
+			switch plans[i].side {
+			case "dial":
+				stale[[2]int{a, as}] += plans[i].n
+				c.Count("links_whose_dialing_side_refused_first", 1)
+			case "listen":
+				stale[[2]int{b, bs}] += plans[i].n
+				c.Count("links_whose_listening_side_refused_first", 1)
+			}
+			if err := c08ConnectRefusing(ref, g.nodes[a].socks[as], g.nodes[b].socks[bs], l.tr, plans[i], reconn); err != nil {
+				c.Inconclusive("connect %s: %v", l.tr, err)
+				return
+			}
+			continue
+		}
 		if _, _, err := hx.Connect(g.nodes[a].socks[as], g.nodes[b].socks[bs], l.tr); err != nil {
 			c.Inconclusive("connect %s: %v", l.tr, err)
 			return
@@ -476,8 +529,50 @@ func c08Topo(c *mon.Case, sp c08Spec) {
 	}
 	for ni, n := range g.nodes {
 		for side := range n.socks {
-			if !hx.WaitAttached(c, n.watch[side], len(n.links[side]), fmt.Sprintf("node %d side %d (%d links)", ni, side, len(n.links[side]))) {
+			what := fmt.Sprintf("node %d side %d (%d links)", ni, side, len(n.links[side]))
+			if sp.Refuse > 0 {
+				if !c08WaitLinked(c, n.watch[side], len(n.links[side]), stale[[2]int{ni, side}], reconn, what) {
+					return
+				}
+			} else if !hx.WaitAttached(c, n.watch[side], len(n.links[side]), what) {
 				return
+			}
+		}
+	}
+	if sp.Refuse > 0 {
+		left, refused := ref.outstanding()
+		if left != 0 {
+			c.Violate("harness:refusals-outstanding", "every link is up but %d planned refusals never happened (%d did)", left, refused)
+			return
+		}
+		c.Count("connections_closed_by_hook_while_attaching", refused)
+	}
+
+	// relayed sends: some cooked members send part of their data with SendMsg in a message that still
+	// carries a protocol header from wherever the application took it (a gateway relaying what it
+	// received on a raw socket).  A cooked send does not look at the caller's header: the message is
+	// one this member sends, so every peer gets the body, once, unchanged.  Planned now (pipe ids are
+	// known), read-only once traffic starts.
+	hdrOf := map[c08Key][]byte{}
+	ownIDs := make([][]uint32, nm)
+	hdrOwnID := 0
+	for x := 0; x < nm; x++ {
+		n := memNode[x]
+		if n.raw || (sp.Raw>>(16+uint(x)))&1 == 0 {
+			continue
+		}
+		for _, p := range n.watch[0].Pipes() {
+			ownIDs[x] = append(ownIDs[x], p.ID())
+		}
+		for ph := 0; ph < phases; ph++ {
+			for q := 0; q < nsend[x][ph]; q++ { // data messages; the sentinel goes out plain
+				if c.Rand.Intn(3) == 0 {
+					h, own := c08StaleHeader(c.Rand, ownIDs[x])
+					hdrOf[c08Key{x, ph, q}] = h
+					if own {
+						hdrOwnID++
+					}
+				}
 			}
 		}
 	}
@@ -578,6 +673,10 @@ func c08Topo(c *mon.Case, sp c08Spec) {
 	onMsg := func(x int, b []byte) {
 		st := rx[x]
 		if len(b) < 13 || b[0] != c08Magic || !bytes.Equal(b[5:13], nonce) {
+			if k, ok := c08FindHeadered(b, nonce, sent, hdrOf); ok {
+				c.Violate(pre+"/stale-header-delivered", "member %d received %x: that is the body origin %d sent (phase %d seq %d) with the header %x of the message it was sent in put in front; a cooked %s SendMsg does not transmit the caller's header", x, b, k.o, k.ph, k.seq, hdrOf[k], fam)
+				return
+			}
 			c.Violate(pre+"/unknown-message", "member %d received %x, which no member of this case sent", x, b)
 			return
 		}
@@ -621,7 +720,16 @@ func c08Topo(c *mon.Case, sp c08Spec) {
 					missing = append(missing, s)
 				}
 			}
-			if len(missing) > 0 {
+			var missingH []int
+			for _, s := range missing {
+				if hdrOf[c08Key{k.o, k.ph, s}] != nil {
+					missingH = append(missingH, s)
+				}
+			}
+			if len(missingH) > 0 {
+				h := hdrOf[c08Key{k.o, k.ph, missingH[0]}]
+				c.Violate(pre+"/sent-with-stale-header-missing", "member %d holds the phase-%d sentinel of origin %d but not its messages seq %v: those the origin sent with SendMsg in messages that carried a stale protocol header (seq %d: %x; ids of the origin's own pipes: %x). A cooked %s send ignores the caller's header — the header does not select who gets the message", x, k.ph, k.o, missingH, missingH[0], h, ownIDs[k.o], fam)
+			} else if len(missing) > 0 {
 				c.Violate(pre+"/missing", "member %d holds the phase-%d sentinel of origin %d but not its messages seq %v (of %d; at most %d in flight per queue, queue length 128)", x, k.ph, k.o, missing, k.seq, 100)
 			}
 			st.sentinel[[2]int{k.o, k.ph}] = true
@@ -667,8 +775,15 @@ func c08Topo(c *mon.Case, sp c08Spec) {
 		}()
 	}
 
-	send := func(x int, b []byte) error {
+	send := func(x int, k c08Key) error {
 		n := memNode[x]
+		b := sent[k]
+		if h := hdrOf[k]; h != nil {
+			m := mangos.NewMessage(len(b))
+			m.Header = append(m.Header, h...)
+			m.Body = append(m.Body, b...)
+			return n.socks[0].SendMsg(m)
+		}
 		if fam == "star" && n.raw { // raw STAR messages must carry the 4-byte hop header
 			m := mangos.NewMessage(len(b))
 			m.Header = append(m.Header, 0, 0, 0, 0)
@@ -707,7 +822,7 @@ func c08Topo(c *mon.Case, sp c08Spec) {
 				defer senders.Done()
 				rnd := hx.NewRand(seeds[x])
 				for s := 0; s <= nsend[x][ph]; s++ {
-					if err := send(x, sent[c08Key{x, ph, s}]); err != nil {
+					if err := send(x, c08Key{x, ph, s}); err != nil {
 						semu.Lock()
 						serr = fmt.Errorf("member %d Send: %v", x, err)
 						semu.Unlock()
@@ -774,7 +889,12 @@ func c08Topo(c *mon.Case, sp c08Spec) {
 	c.Count("manual_device_forwards", forwarded)
 	c.Count("manual_device_header_is_source_pipe_id", hdrIsPipe)
 	fwdMu.Unlock()
+	c.Count("cooked_sends_carrying_a_stale_header", len(hdrOf))
+	c.Count("cooked_sends_whose_stale_header_is_an_own_pipe_id", hdrOwnID)
 	c.Count("cases_"+fam+"_"+kind, 1)
+	if sp.Refuse > 0 {
+		c.Count("cases_after_refusal_"+fam, 1)
+	}
 	if compared > 0 && nm >= 2 && !c.Failed() {
 		c.Nontrivial()
 	}
@@ -783,7 +903,13 @@ func c08Topo(c *mon.Case, sp c08Spec) {
 		il = sw * 8 / tot // coarse measure of how interleaved the arrivals were
 	}
 	rawm := sp.Raw & (1<<uint(nm) - 1)
-	c.Sig("%s|%v|%b|%s|%s|p%d|il%d", pre, sp.Shape, rawm, sp.Tr, linkTrs(g), sp.Procs, il)
+	rf := ""
+	for _, pl := range plans {
+		if pl.n > 0 {
+			rf += fmt.Sprintf("%s%d", pl.side[:1], pl.n)
+		}
+	}
+	c.Sig("%s|%v|%b|%s|%s|p%d|il%d|%s|h%v", pre, sp.Shape, rawm, sp.Tr, linkTrs(g), sp.Procs, il, rf, len(hdrOf) > 0)
 }
 
 func linkTrs(g *c08Graph) string {
@@ -793,4 +919,42 @@ func linkTrs(g *c08Graph) string {
 	}
 	sort.Strings(s)
 	return strings.Join(s, "")
+}
+
+// c08StaleHeader makes a protocol header as an application could find it on a message it took from
+// a raw socket: the id of a pipe (here: of the sending socket itself, where a raw BUS socket would
+// read it as "came from that peer"), a pipe id followed by a request id (raw REP / RESPONDENT),
+// or other bytes.  own reports that the first four bytes are the id of one of the sender's own pipes.
+func c08StaleHeader(rnd *rand.Rand, ids []uint32) (h []byte, own bool) {
+	x := rnd.Intn(4)
+	if len(ids) == 0 && x < 2 {
+		x = 2
+	}
+	switch x {
+	case 0:
+		return hx.Be32(ids[rnd.Intn(len(ids))]), true
+	case 1:
+		return hx.Cat(hx.Be32(ids[rnd.Intn(len(ids))]), hx.Be32(0x80000000|rnd.Uint32())), true
+	case 2:
+		h = make([]byte, 4)
+	default:
+		h = make([]byte, 1+rnd.Intn(12))
+	}
+	rnd.Read(h)
+	return h, false
+}
+
+// c08FindHeadered recognises a received body that is "stale header + body" of a message some
+// member sent with a header.
+func c08FindHeadered(b, nonce []byte, sent map[c08Key][]byte, hdrOf map[c08Key][]byte) (c08Key, bool) {
+	for i := 1; i <= 16 && i+13 <= len(b); i++ {
+		if b[i] != c08Magic || !bytes.Equal(b[i+5:i+13], nonce) {
+			continue
+		}
+		k := c08Key{int(b[i+1]), int(b[i+2]), int(b[i+3])}
+		if h := hdrOf[k]; h != nil && bytes.Equal(h, b[:i]) && bytes.Equal(sent[k], b[i:]) {
+			return k, true
+		}
+	}
+	return c08Key{}, false
 }
